@@ -1,7 +1,7 @@
 """C01 - every valid instruction assembles to its exact AVR ISA machine code."""
 import random
 
-from . import encgen, encrun, gen
+from . import encgen, encrun, gen, progcheck as P, progrun
 
 PROP = "C01"
 
@@ -30,10 +30,122 @@ def run(res):
         assume=["Spec/Isa.v is a transcription of the AVR Instruction Set Manual (DESIGN.md section 10)",
                 "operands in this interface are literals and registers; symbolic operands are covered by the theorem's "
                 "hypothesis on the accessor views and by the program-level checks"])
+    run_sequences(res)
+
+
+def to_source(case):
+    """an instruction-level case as a line of assembler text"""
+    _, _, m, ops = case.split(" ")
+    if ops == "-":
+        return "  " + m
+
+    def conv(o):
+        if o[0] == "e":
+            return o[1:]
+        if "+q" in o:
+            return o[0] + "+" + o[3:]
+        return o
+    return "  %s %s" % (m, ", ".join(conv(o) for o in ops.split(",")))
+
+
+def sequences(rng, pool, n):
+    """programs = sequences of legal instructions (often the SAME statement several times in a row, labels and data words in
+    between): the image must be the concatenation of what the ISA table says for each statement AT ITS OWN ADDRESS - an
+    instruction's words depend on the statement and its address only, never on its neighbours.
+    -> list of (lines, list of (enc case at its address or None for a literal word, literal hex))"""
+    out = []
+    for _ in range(n):
+        a = 0
+        lines, parts = [], []
+        k = rng.randrange(4, 40)
+        prev = None
+        while len(parts) < k:
+            r = rng.random()
+            if prev is not None and r < 0.3:
+                kind = prev            # the same statement again, at the next address
+            elif r < 0.45:
+                kind = ("rel", rng.choice(["rjmp", "rcall"] + ["br" + b for b in encgen.BR] + ["brbs e3,", "brbc e6,"]), rng.randrange(0, 60))
+            elif r < 0.5:
+                kind = ("abs", rng.choice(["jmp", "call"]), rng.choice([0, 1, 65535, 65536, 4194303, rng.randrange(0, 4194304)]))
+            elif r < 0.55:
+                kind = ("mem", rng.choice(["lds r%d,e%d", "sts e%d,r%d"]), rng.randrange(32), rng.choice([0, 96, 255, 256, 65535, rng.randrange(0, 65536)]))
+            elif r < 0.62:
+                kind = ("word", rng.randrange(0, 65536))
+            elif r < 0.68:
+                kind = ("label",)
+            else:
+                kind = ("plain", rng.choice(pool))
+            if kind[0] == "label":
+                lines.append("L%d_%d:" % (len(out), len(lines)))
+                continue
+            if kind[0] == "word":
+                lines.append("  .dw %d" % kind[1])
+                parts.append((None, "%02x%02x" % (kind[1] % 256, kind[1] // 256)))
+                a += 1
+            elif kind[0] == "rel":
+                # the SAME target text from successive addresses: the displacement differs every time
+                t = kind[2]
+                lim = 2048 if kind[1] in ("rjmp", "rcall") else 64
+                if not -lim <= t - (a + 1) < lim:
+                    t = a + 1 + rng.randrange(-min(lim, a + 1), lim)
+                    kind = (kind[0], kind[1], t)
+                op = kind[1]
+                case = "F %d %s e%d" % (a, op, t) if " " not in op else "F %d %s%s" % (a, op.replace(" ", " "), "e%d" % t)
+                lines.append(to_source(case))
+                parts.append((case, None))
+                a += 1
+            elif kind[0] == "abs":
+                case = "F %d %s e%d" % (a, kind[1], kind[2])
+                lines.append(to_source(case))
+                parts.append((case, None))
+                a += 2
+            elif kind[0] == "mem":
+                case = "F %d %s" % (a, kind[1] % ((kind[2], kind[3]) if kind[1].startswith("lds") else (kind[3], kind[2])))
+                lines.append(to_source(case))
+                parts.append((case, None))
+                a += 2
+            else:
+                f = kind[1].split(" ")
+                case = "F %d %s %s" % (a, f[2], f[3])
+                lines.append(to_source(case))
+                parts.append((case, None))
+                a += 1
+            prev = kind
+        out.append((lines, parts))
+    return out
+
+
+def run_sequences(res):
+    import random
+    from . import common as C
+    vh = C.build_harness("debug")
+    exe = C.build_model()
+    rng = random.Random(res.seed + 1)
+    pool = [c for c in encgen.legal("F")[::37] if c.split(" ")[2] not in ("jmp", "call", "lds", "sts")]
+    seqs = sequences(rng, pool, 150 if res.tier == "quick" else 20000)
+    cases = list(dict.fromkeys(c for _, parts in seqs for c, _ in parts if c))
+    spec = {r[0]: r[3] for r in encrun.run_cases(vh, exe, cases)}
+    texts = ["\n".join(lines) + "\n" for lines, _ in seqs]
+    obs = P.correspond(res, vh, exe, texts, "instruction-sequence programs")
+    for (lines, parts), t in zip(seqs, texts):
+        want = "".join(spec[c] if c else h for c, h in parts)
+        a = progrun.parse_obs(obs[t][0])
+        if any(spec[c] == "NONE" for c, _ in parts if c):
+            continue
+        if a["kind"] != "OK" or a["code"] != want:
+            P.fail(res, "builder::build_str", t, "code " + want, obs[t][0][:200], "sequence", extra=dict(want_code=want))
+    res.extra["distribution"]["instruction_sequences"] = len(seqs)
 
 
 match_known = encrun.match_known
 
 
 def replay(path):
+    import json
+    i = json.load(open(path)).get("input") or {}
+    if "want_code" in i:
+        def judge(vh, exe, inp):
+            a = progrun.parse_obs(progrun.run_texts(vh, exe, [inp["source"]])[0][1])
+            return None if a["kind"] == "OK" and a["code"] == inp["want_code"] else ("code " + inp["want_code"], a)
+        return P.replay_text(PROP, path, judge)
     return encrun.replay(PROP, path)
